@@ -1,9 +1,38 @@
 (* C19 -- Re-expressing or re-owning a pattern does not change its behaviour. *)
-From WaxModel Require Import Base Token Query.
-From WaxProofs Require Import AlgebraFacts.
+From WaxModel Require Import Base Token Regex Encode Variance Fold Query.
+From WaxProofs Require Import AlgebraFacts OwnedFacts.
 
-(* into_owned / clone / the combinator go through Token::fold_map: with the identity on annotations it returns
-   the same tree (children kept in order; repetition bounds survive the detour through NaturalRange) *)
+(* into_owned / clone / the combinator go through Token::fold_map: with the identity on annotations it returns the same tree
+   (children kept in order; repetition bounds survive the detour through NaturalRange) *)
 Theorem C19_fold_map_id : forall t, tok_bounds_ok t -> fold_map (fun sp => sp) t = Ok t.
 Proof. exact fold_map_id. Qed.
 Print Assumptions C19_fold_map_id.
+
+(* with any function on annotations, fold_map changes nothing but the annotations *)
+Theorem C19_fold_map_only_annotations : forall f t, tok_bounds_ok t -> fold_map f t = Ok (respan f t).
+Proof. exact fold_map_respan. Qed.
+Print Assumptions C19_fold_map_only_annotations.
+
+(* and neither the compiled program nor any query looks at an annotation *)
+Theorem C19_program_ignores_annotations : forall f t, encode (respan f t) = encode t.
+Proof. exact encode_respan. Qed.
+Print Assumptions C19_program_ignores_annotations.
+
+Theorem C19_depth_ignores_annotations : forall f t, depth_variance (respan f t) = depth_variance t.
+Proof. exact depth_variance_respan. Qed.
+Print Assumptions C19_depth_ignores_annotations.
+
+Theorem C19_text_ignores_annotations : forall hc f t, text_variance hc (respan f t) = text_variance hc t.
+Proof. exact text_variance_respan. Qed.
+Print Assumptions C19_text_ignores_annotations.
+
+Theorem C19_root_ignores_annotations : forall f t, has_root (respan f t) = has_root t.
+Proof. exact has_root_respan. Qed.
+Print Assumptions C19_root_ignores_annotations.
+
+(* a glob passed through a combinator (as text or compiled: the same tree) matches exactly what it matched before *)
+Theorem C19_any_of_one :
+  forall orbit t w, tok_bounds_ok t ->
+    exists a, any_tree [t] = Ok a /\ (sem orbit (encode a) w <-> sem orbit (encode t) w).
+Proof. exact any_of_one. Qed.
+Print Assumptions C19_any_of_one.
